@@ -203,6 +203,13 @@ def suites(prop: str, tier: str) -> t.List[Suite]:
         return [
             Suite('once-d0', GEN + ['corpus'], ['saves', 'outcome'], 0, ['async'], collab={'store': 'once'}, symptoms=sym),
             Suite('once-d0-thread', GEN + ['corpus'], ['saves', 'outcome'], 0, ['thread'], collab={'store': 'once'}, symptoms=sym),
+            # suspending start / complete hooks on cases where a node is requested from two scopes
+            Suite('shared-gated-start', ['corpus', 'switch', 'oneof'], ['saves', 'outcome'], 0, ['async'],
+                  collab={'store': 'once', 'mode': 'gated', 'gate_kinds': ['node_start'], 'save_mode': 'instant'}, symptoms=sym, plans='ok',
+                  max_nodes=8 if q else 9, require_tag='node-requested-from-two-scopes', limit=30000),
+            Suite('shared-gated-complete', ['corpus', 'switch', 'oneof'], ['saves', 'outcome'], 0, ['async'],
+                  collab={'store': 'once', 'mode': 'gated', 'gate_kinds': ['node_complete'], 'save_mode': 'instant'}, symptoms=sym, plans='ok',
+                  max_nodes=8 if q else 9, require_tag='node-requested-from-two-scopes', limit=30000),
         ] + ([] if q else [Suite('composed', COMPOSED, ['saves', 'outcome'], 0, ['async'], collab={'store': 'once'}, symptoms=sym)]) + [
             Suite('once-gated-save', ['corpus', 'plain', 'switch'], ['saves', 'outcome'], 0, ['async'],
                   collab={'store': 'once', 'save_mode': 'gated'}, symptoms=sym, plans='ok', max_nodes=5 if q else 5, limit=20000),
